@@ -165,6 +165,17 @@ def main(tier):
                         ex.append({"e": "Round", "cmd": "dround -i %s -f %%F %s%s%s" % (nota, "-n " if nxt else "", arg, " " + arg if twice else ""), "kind": kind, "v": v, "dir": dr,
                                    "next": nxt, "res": res, "out": got, "nota": nota})
                         execs.append(ex)
+        # business-day dates (YYYY-MM-DDb): n-th business day targets are exact; a weekday target needs the conversion *to* that notation,
+        # which the library does not have (see C01: bizda is a source only) -- probed, listed as a finding
+        for xin, arg, want in (("2012-02-01b", "3b", "2012-02-03b"), ("2012-02-03b", "3b", "2012-02-03b"), ("2012-02-10b", "3b", "2012-03-03b"), ("2012-02-10b", "-3b", "2012-02-03b")):
+            p = core.run([dround, xin, "--", arg], timeout=20)
+            nrun += 1
+            if p.stdout.strip() != want:
+                rep.disagree("dround business-day target on a business-day date", {"cmd": "dround %s %s" % (xin, arg), "got": p.stdout.strip(), "want": want})
+        p = core.run([dround, "2012-02-01b", "Mon"], timeout=20)
+        nrun += 1
+        if p.stdout.strip() != "2012-02-04b":
+            rep.disagree("dround-weekday-target-on-a-business-day-date", {"cmd": "dround 2012-02-01b Mon", "got": p.stdout.strip(), "want": "2012-02-04b (Monday 2012-02-06)"})
         # the same instants given as seconds since the epoch (-i %s -f %s): before 1970, around 2^31 and beyond 2^32
         # (epoch values have no fields to set: the tool offers them the co-classes only; the value 0 itself cannot be read, see the C11 finding)
         tsp = [x for x in specs(True, rng) if x[1] in ("coh", "comi", "cos")]      # (/1d leaves an epoch value unchanged: day co-classes are not offered for them)
